@@ -485,7 +485,7 @@ func TestC01(t *testing.T) {
 				return
 			}
 			var cve *tls.CertificateVerificationError
-			if returning && errors.As(h.ClientErr, &cve) {
+			if returning && (errors.As(h.ClientErr, &cve) || strings.Contains(h.ClientErr.Error(), "after a cached session for")) {
 				// the cached session's certificate does not cover the name an edit put in force:
 				// the client refuses before sending anything (C14's subject, not a C01 failure)
 				r.Count("returning_client_refused_stale_session", 1)
